@@ -106,18 +106,19 @@ theorem walkNodes_sound (P : Nat → Nat → Prop) (hs : ∀ k a x, x ∈ cfg k 
 end walkers
 
 /-- `m` is visited directly from `n` by `updatedependencies`. -/
-inductive Child (g : Graph) (n m : Nat) : Prop
-  | pre : m ∈ (g.node n).preTasks → Child g n m
-  | init : m ∈ (g.node n).initTasks → Child g n m
-  | arg : (g.node n).task = none → occursVals m ((g.node n).args.map (·.value)) = true → Child g n m
+inductive Child (g : Graph) (ld : Nat → Bool) (n m : Nat) : Prop
+  | pre : m ∈ (g.node n).preTasks → Child g ld n m
+  | init : m ∈ (g.node n).initTasks → Child g ld n m
+  | arg : effTask g ld n = none → occursVals m ((g.node n).args.map (·.value)) = true → Child g ld n m
 
 /-- walking from `n` reaches a configuration that carries task `t` (without crossing a task boundary:
-    the parameters of a configuration that has a producing task are not inspected). -/
-inductive Emb (g : Graph) : Nat → Nat → Prop
-  | here {n t} : (g.node n).task = some t → Emb g n t
-  | step {n m t} : Child g n m → Emb g m t → Emb g n t
+    the parameters of a configuration that has a producing task and is not loaded are not inspected; those of a loaded
+    configuration are). -/
+inductive Emb (g : Graph) (ld : Nat → Bool) : Nat → Nat → Prop
+  | here {n t} : effTask g ld n = some t → Emb g ld n t
+  | step {n m t} : Child g ld n m → Emb g ld m t → Emb g ld n t
 
-theorem depsNode_mono (g : Graph) : ∀ fuel n acc x, x ∈ acc → x ∈ depsNode g fuel n acc := by
+theorem depsNode_mono (g : Graph) (ld : Nat → Bool) : ∀ fuel n acc x, x ∈ acc → x ∈ depsNode g ld fuel n acc := by
   intro fuel
   induction fuel with
   | zero => intro n acc x h; simpa [depsNode] using h
@@ -135,8 +136,8 @@ theorem depsNode_mono (g : Graph) : ∀ fuel n acc x, x ∈ acc → x ∈ depsNo
 /-- **completeness**: every task embedded in the parameters (at any depth, through lists, dicts, nested
     configurations, task outputs, pre-tasks and init tasks) is collected — for acyclic parameter graphs
     (the real code has no visited set and does not terminate on cycles). -/
-theorem depsNode_complete (g : Graph) (rank : Nat → Nat) (hr : ∀ n m, Child g n m → rank m < rank n) :
-    ∀ fuel n t, Emb g n t → rank n < fuel → ∀ acc, t ∈ depsNode g fuel n acc := by
+theorem depsNode_complete (g : Graph) (ld : Nat → Bool) (rank : Nat → Nat) (hr : ∀ n m, Child g ld n m → rank m < rank n) :
+    ∀ fuel n t, Emb g ld n t → rank n < fuel → ∀ acc, t ∈ depsNode g ld fuel n acc := by
   intro fuel
   induction fuel with
   | zero => intro n t _ h; omega
@@ -152,8 +153,8 @@ theorem depsNode_complete (g : Graph) (rank : Nat → Nat) (hr : ∀ n m, Child 
     | step hc hemb =>
       rename_i m
       have hm : rank m < fuel := by have := hr n m hc; omega
-      have hcb : ∀ a, t ∈ depsNode g fuel m a := ih m t hemb hm
-      have mono := depsNode_mono g fuel
+      have hcb : ∀ a, t ∈ depsNode g ld fuel m a := ih m t hemb hm
+      have mono := depsNode_mono g ld fuel
       cases hc with
       | pre hp =>
         have h1 := walkNodes_mem _ mono m t hcb (g.node n).preTasks acc hp
@@ -164,7 +165,7 @@ theorem depsNode_complete (g : Graph) (rank : Nat → Nat) (hr : ∀ n m, Child 
           · simp [h2]
         · exact walkVals_mono _ mono _ _ t h2
       | init hp =>
-        have h2 := walkNodes_mem _ mono m t hcb (g.node n).initTasks (walkNodes (depsNode g fuel) (g.node n).preTasks acc) hp
+        have h2 := walkNodes_mem _ mono m t hcb (g.node n).initTasks (walkNodes (depsNode g ld fuel) (g.node n).preTasks acc) hp
         split
         · split
           · exact h2
@@ -175,24 +176,24 @@ theorem depsNode_complete (g : Graph) (rank : Nat → Nat) (hr : ∀ n m, Child 
         exact walkVals_mem _ mono m t hcb _ _ hocc
 
 /-- **soundness**: nothing else is collected. -/
-theorem depsNode_sound (g : Graph) : ∀ fuel n acc x, x ∈ depsNode g fuel n acc → x ∈ acc ∨ Emb g n x := by
+theorem depsNode_sound (g : Graph) (ld : Nat → Bool) : ∀ fuel n acc x, x ∈ depsNode g ld fuel n acc → x ∈ acc ∨ Emb g ld n x := by
   intro fuel
   induction fuel with
   | zero => intro n acc x h; simp only [depsNode] at h; exact .inl h
   | succ fuel ih =>
     intro n acc x h
     simp only [depsNode] at h
-    have hpre : ∀ a, x ∈ walkNodes (depsNode g fuel) (g.node n).preTasks a → x ∈ a ∨ Emb g n x := by
+    have hpre : ∀ a, x ∈ walkNodes (depsNode g ld fuel) (g.node n).preTasks a → x ∈ a ∨ Emb g ld n x := by
       intro a hx
-      rcases walkNodes_sound _ (fun k y => Emb g k y) ih _ a x hx with h | ⟨k, hk, hp⟩
+      rcases walkNodes_sound _ (fun k y => Emb g ld k y) ih _ a x hx with h | ⟨k, hk, hp⟩
       · exact .inl h
       · exact .inr (.step (.pre hk) hp)
-    have hinit : ∀ a, x ∈ walkNodes (depsNode g fuel) (g.node n).initTasks a → x ∈ a ∨ Emb g n x := by
+    have hinit : ∀ a, x ∈ walkNodes (depsNode g ld fuel) (g.node n).initTasks a → x ∈ a ∨ Emb g ld n x := by
       intro a hx
-      rcases walkNodes_sound _ (fun k y => Emb g k y) ih _ a x hx with h | ⟨k, hk, hp⟩
+      rcases walkNodes_sound _ (fun k y => Emb g ld k y) ih _ a x hx with h | ⟨k, hk, hp⟩
       · exact .inl h
       · exact .inr (.step (.init hk) hp)
-    have hboth : ∀ y, y ∈ walkNodes (depsNode g fuel) (g.node n).initTasks (walkNodes (depsNode g fuel) (g.node n).preTasks acc) → y = x → x ∈ acc ∨ Emb g n x := by
+    have hboth : ∀ y, y ∈ walkNodes (depsNode g ld fuel) (g.node n).initTasks (walkNodes (depsNode g ld fuel) (g.node n).preTasks acc) → y = x → x ∈ acc ∨ Emb g ld n x := by
       intro y hy hyx; subst hyx
       rcases hinit _ hy with h | h
       · exact hpre _ h
@@ -206,7 +207,7 @@ theorem depsNode_sound (g : Graph) : ∀ fuel n acc x, x ∈ depsNode g fuel n a
         · exact hboth x h rfl
         · subst h; exact .inr (.here htask)
     · rename_i hnone
-      rcases walkVals_sound _ (fun k y => Emb g k y) ih _ _ x h with h | ⟨k, hk, hp⟩
+      rcases walkVals_sound _ (fun k y => Emb g ld k y) ih _ _ x h with h | ⟨k, hk, hp⟩
       · exact hboth x h rfl
       · exact .inr (.step (.arg hnone hk) hp)
 
